@@ -24,6 +24,7 @@ func checkC04(v *tunView, m *connModel) {
 	c := r.c
 	if m.giveUp {
 		e.Probe("conn-model-gave-up")
+		e.Probe("conn-model-gave-up:" + m.giveUpWhy)
 		return
 	}
 	var expAcks []expAck
